@@ -659,7 +659,7 @@ func main() {
 			"samples":             sampleOut,
 			"runs_per_hour":       int(float64(total.Runs) / runS * 3600),
 			"logical_steps":       total.Steps,
-			"simulated_time_note": "the library has no clocks or timers; simulated time is reported as logical steps (I/O operations, scheduler steps, enumerated fault points)",
+			"simulated_time_note": simTimeNote(*prop),
 			"tape_draws":          total.Draws,
 			"faults_fired":        total.Faults,
 			"reach_probes":        total.Probes,
@@ -910,4 +910,12 @@ func doSelftest(prop, tier string, seed uint64, runs int) {
 	}
 	fmt.Printf("%s determinism self-test FAILED\n", prop)
 	os.Exit(2)
+}
+
+func simTimeNote(prop string) string {
+	base := "the library has no clocks or timers; simulated time is reported as logical steps (I/O operations, scheduler steps, enumerated fault points)"
+	if strings.HasPrefix(overlayProps[prop], "work") {
+		base += "; for this check the duration of library work is simulated as well: a deterministic counter of function entries and loop iterations inserted by a build overlay (totals under reach_probes, 'simulated time ...')"
+	}
+	return base
 }
